@@ -6,8 +6,9 @@
   with data buffered, OnConnect still running, peer close at any moment.
 -/
 import Netpoll.Conn.LifeReachLemmas
+import Netpoll.Conn.LifeDemos
 namespace Netpoll.Props.C06
-open Netpoll.Conn.Life
+open Netpoll.Conn.Life Netpoll.Conn.LifeDemos
 
 /-- at most one OnRequest invocation is in progress -/
 theorem C06_serial {s : S} (h : Reachable s) : s.handlerActive ≤ 1 := by
@@ -43,29 +44,14 @@ theorem C06_offer_before_close {s : S} (h : Reachable s)
 
 /-! Non-vacuity: the hypotheses are met by concrete reachable states. -/
 
-/-- two deliveries, the second while the first task is in its exit window; the task re-checks and takes the lock -/
-def demoWindow : List Act :=
-  [.a .aPrepE, .a .aPrepX, .a (.aAct1 0), .a (.aReg true), .a (.aAct2 0), .a (.aSt true),
-   .p .pFetch, .p (.pDo true), .p (.pRead 5), .p (.pAck 5), .p (.pGet 1), .p (.pLock true), .p .pFinish, .p .pDone,
-   .t (.t3 5), .t .tHenter, .u (.uConsume 5 0), .t .tHexit, .t (.t4a 0), .t (.t4b0 0),
-   .p .pFetch, .p (.pDo true), .p (.pRead 3), .p (.pAck 3), .p (.pGet 1), .p (.pLock false), .p (.pTrig true), .p .pFinish, .p .pDone,
-   .t .t6, .t (.t7a 0), .t (.t8a 3), .t (.t8b true), .t (.t3 3), .t .tHenter, .u (.uConsume 3 0), .t .tHexit]
+/- two deliveries, the second while the first task is in its exit window; the task re-checks and takes the lock -/
 
 example : ∃ s, run (init true false false true) demoWindow = some s ∧ s.orSet = true ∧ s.closing = 0 ∧ s.inLen = 0
     ∧ s.reqRuns = 2 ∧ s.handlerActive = 0 := by
   refine ⟨_, rfl, ?_⟩
   decide
 
-/-- peer close with input still buffered: the hang-up goroutine starts a processing task instead of closing (fix d06) -/
-def demoPeerClose : List Act :=
-  [.a .aPrepE, .a .aPrepX, .a (.aAct1 0), .a (.aReg true), .a (.aAct2 0), .a (.aSt true),
-   .p .pFetch, .p (.pDo true), .p (.pRead 5), .p (.pAck 5), .p (.pGet 1), .p (.pLock true), .p .pFinish, .p .pDone,
-   .t (.t3 5), .t .tHenter, .u (.uConsume 5 0), .t .tHexit, .t (.t4a 0), .t (.t4b0 0), .t .t6, .t (.t7a 0),
-   .p .pPeerClose, .p .pFetch, .p (.pDo true), .p (.pRead 7), .p (.pAck 7), .p (.pGet 1), .p (.pLock true),
-   .p (.pRead 0), .p (.pAck 7), .p .pFinish, .p .pDone, .t (.t8a 7),
-   .p .pFetch, .p (.pDo true), .p (.pRead 0), .p (.pAck 7), .p .pHup, .p (.pDet 1), .p .pHDone,
-   .h (.hCas true), .h (.hRd true), .h (.hWr true), .h (.hLen 7), .h (.hProc false),
-   .t (.t3 7), .t .tHenter, .u (.uConsume 7 0), .t .tHexit, .t (.t4a 2), .t (.t4b2 0)]
+/- peer close with input still buffered: the hang-up goroutine starts a processing task instead of closing (fix d06) -/
 
 example : ∃ s, run (init true false false true) demoPeerClose = some s ∧ s.cbRuns = 1 ∧ s.cbStartClosing = 2 ∧
     s.cbStartOr = true ∧ s.panics = 0 ∧ s.d7 = false ∧ s.cbStartLen = 0 ∧ s.reqRuns = 2 := by
